@@ -368,6 +368,8 @@ class CFG:
 
     def cond(self, test, cur, frames):
         """returns (true_ends, false_ends): lists of dangling (node, label) edges"""
+        if isinstance(test, ast.Call) and isinstance(test.func, ast.Name) and test.func.id == "bool" and len(test.args) == 1 and not test.keywords:
+            test = test.args[0]        # `bool(a and b)` branches like `a and b`
         if isinstance(test, ast.BoolOp):
             if isinstance(test.op, ast.And):
                 pend = [(cur, "next")]
